@@ -552,7 +552,7 @@ def run_case(ch: Choices, params: dict) -> dict:
               "failing_ops": 0, "ok_ops": 0, "final_round_ops": 0, "reference_forks": 0,
               "self_references": 0, "ops_vs_fresh_reference": 0, "ops_vs_first_occurrence": 0,
               "repeat_right_after_failure": 0, "ops_from_another_thread": 0,
-              "module_edited_in_place": 0}
+              "module_edited_in_place": 0, "user_rebinds_comptime_variable": 0}
     # ---- raw history draws (resolved against the pool once it exists)
     n_ops = ch.rng_int(params.get("min_ops", 6), params.get("max_ops", 24), "n_ops")
     if ch.draw(10, "short_history") < 7:
@@ -616,6 +616,9 @@ def run_case(ch: Choices, params: dict) -> dict:
             # the user edits the module's file in place (same number of lines) and re-runs
             # it: every definition of that module is created anew from the edited source
             history.append((("edit", pool[pi][0]), "edit", 0))
+        if again == 1 and op_raw == 4 and len(history) > 1 and hasattr(mods[pool[pi][0]], "NCT"):
+            # the user rebinds a Python variable that a comptime type argument reads
+            history.append((("rebind", pool[pi][0]), "rebind", 0))
         history.append((pi, op, again))
     # once the faults stop: a final round over (up to 5 drawn) definitions
     order = ch.shuffle(list(range(len(pool))), "final_order")[:5]
@@ -639,13 +642,19 @@ def run_case(ch: Choices, params: dict) -> dict:
     # the edit state (edits applied per module so far) is part of what an op sees
     first_pos: dict[tuple, int] = {}
     state = [0] * len(mods)
+    rebinds = [0] * len(mods)
     keyed: list[tuple | None] = []
     for pos, (pi_, op_, _a) in enumerate(history + final):
         if op_ == "edit":
             state[pi_[1]] += 1
+            rebinds[pi_[1]] = 0          # the re-run module binds the variable anew
             keyed.append(None)
             continue
-        key = (pi_, op_, tuple(state))
+        if op_ == "rebind":
+            rebinds[pi_[1]] += 1
+            keyed.append(None)
+            continue
+        key = (pi_, op_, tuple(state) + tuple(rebinds))
         keyed.append(key)
         first_pos.setdefault(key, pos)
     by_exposure = sorted(first_pos, key=lambda k: (-first_pos[k], k))
@@ -653,9 +662,13 @@ def run_case(ch: Choices, params: dict) -> dict:
     refs: dict[tuple, dict] = {}
 
     def fresh_ref(pi: int, op: str, st: tuple) -> dict:
-        for mi_, k_ in enumerate(st):       # a session that only ever saw the edited files
+        n_m = len(mods)
+        for mi_, k_ in enumerate(st[:n_m]):  # a session that only ever saw the edited files
             for kk in range(1, k_ + 1):
                 apply_edit(mi_, kk)
+        for mi_, r_ in enumerate(st[n_m:]):  # ... and the current values of the variables
+            if r_:
+                mods[mi_].NCT = 2 + r_
         mi, name = pool[pi]
         return do_op(getattr(mods[mi], name), op)
 
@@ -671,11 +684,21 @@ def run_case(ch: Choices, params: dict) -> dict:
     steps = 0
     rendered = []
     state = [0] * len(mods)
+    rebinds = [0] * len(mods)
     for phase, ops in (("history", history), ("final", final)):
         prev = None
         for pi, op, again in ops:
+            if op == "rebind":
+                rebinds[pi[1]] += 1
+                mods[pi[1]].NCT = 2 + rebinds[pi[1]]
+                probes["user_rebinds_comptime_variable"] += 1
+                rendered.append(f"<user sets m{pi[1]}.NCT = {2 + rebinds[pi[1]]}>")
+                log.add("rebind", pi[1], rebinds[pi[1]])
+                prev = None
+                continue
             if op == "edit":
                 state[pi[1]] += 1
+                rebinds[pi[1]] = 0
                 apply_edit(pi[1], state[pi[1]])
                 probes["module_edited_in_place"] += 1
                 rendered.append(f"<module m{pi[1]} edited in place and re-run (edit {state[pi[1]]})>")
@@ -694,7 +717,7 @@ def run_case(ch: Choices, params: dict) -> dict:
                 probes["ops_from_another_thread"] += 1
             got = do_op(getattr(mods[mi], name), op, other_thread)
             text = got.pop("_text", None)
-            rkey = (pi, op, tuple(state))
+            rkey = (pi, op, tuple(state) + tuple(rebinds))
             if rkey not in refs:
                 refs[rkey] = dict(got)      # first occurrence = reference
                 probes["self_references"] += 1
